@@ -59,6 +59,25 @@ def generate(g, tier):
     for n in ([300, 3000] if tier == 'quick' else [300, 3000, 10000]):
         text = '\n'.join(f'IF TRUE\n    REPEAT 1\n        STRING s{i}' for i in range(n))
         cases.append(dict(op='compile', timeout=120, src=dict(text=text), opts=dict(stack_limit=5), meta=dict(family='sequential', exp='ok', nlines=n)))
+    # imports and calls that follow one another consume no depth either: L+3 of them, then a nest of the deepest legal depth
+    for L in ([5, 6, 20] if tier == 'quick' else [5, 6, 7, 20, 50, 200]):
+        for kw in ('START', 'STARTENV', 'STARTCODE', 'RUN'):
+            n = L + 3
+            _, _, deep = nest('if', L - 1, '    ')
+            if kw == 'RUN':
+                text = 'FUNC lib\n    IF TRUE\n        STRING in-lib\n' + 'RUN lib\n' * n + deep
+                cases.append(dict(op='compile', src=dict(text=text), opts=dict(stack_limit=L), meta=dict(family='sequential-run', L=L, exp='ok-tail')))
+            else:
+                files = {'p/main.txt': (f'{kw} lib\n' * n) + deep, 'p/lib.txt': 'IF TRUE\n    STRING in-lib\nVAR libvar 1'}
+                cases.append(dict(op='compile_file', file='p/main.txt', files=files, opts=dict(stack_limit=L), meta=dict(family='sequential-' + kw.lower(), L=L, exp='ok-tail')))
+    # the iteration bound is checked every time it is evaluated: a body that moves the bound out of 0..20000 ends in the error, it
+    # neither runs on past 20,000 iterations nor silently stops
+    for t in ('VAR n 2\nREPEAT n\n    VAR n 20001\nSTRING after', 'VAR n 2\nREPEAT i,n\n    VAR n 20000+i+1\nSTRING after', 'VAR n 2\nREPEAT n\n    VAR n 0-1\nSTRING after',
+              'VAR n 1\nFOR k,n*2\n    IF k==1\n        VAR n 10001\nSTRING after'):
+        cases.append(dict(op='compile', src=dict(text=t), meta=dict(family='moving-bound', exp='error')))
+    cases.append(dict(op='compile', src=dict(text='VAR n 2\nREPEAT n\n    VAR n 20000\n    BREAKLOOP\nSTRING after'), meta=dict(family='moving-bound-ok', exp='ok')))
+    if tier == 'thorough':
+        cases.append(dict(op='compile', timeout=600, src=dict(text='VAR n 1\nREPEAT n\n    VAR n n+1\nSTRING after'), meta=dict(family='growing-bound', exp='error')))
     # parenthesis depth
     for d in (1, 50, 99, 100, 101, 102, 150):
         e = '(' * d + '1' + ')' * d
@@ -97,6 +116,9 @@ def oracle(cases, results):
             if k != 'ok': fs.append(fail(i, f'{fam}: depth {m.get("k")} under limit {m.get("L")} rejected: {r.get("cls")} {r.get("msg", "")}', f'{fam}:rejected:{r.get("cls")}'))
             elif fam.startswith('nest') and r['out'] != ['STRING x']: fs.append(fail(i, f'{fam}: wrong output {r["out"][:5]}', f'{fam}:output'))
             elif fam == 'sequential' and len(r['out']) != m['nlines']: fs.append(fail(i, f'sequential blocks: {len(r["out"])} lines, expected {m["nlines"]}', 'sequential:output'))
+        elif exp == 'ok-tail':
+            if k != 'ok': fs.append(fail(i, f'{fam}: {m.get("L") + 3} imports/calls in a row then depth {m.get("L") - 1} under limit {m.get("L")} rejected: {r.get("cls")} {r.get("msg", "")}', f'{fam}:rejected:{r.get("cls")}'))
+            elif r['out'][-1:] != ['STRING x']: fs.append(fail(i, f'{fam}: wrong output tail {r["out"][-3:]}', f'{fam}:output'))
         elif exp == 'overflow':
             if k != 'cerr' or r.get('cls') != 'StackOverflowError':
                 fs.append(fail(i, f'{fam}: depth {m.get("k")} at limit {m.get("L")} should be a StackOverflowError: {k} {r.get("cls")} {r.get("out", [])[:3]}', f'{fam}:no-overflow'))
